@@ -15,6 +15,9 @@ API (everything else in this module is private):
 * ``run_reference(proto, inputs) / run_ort(proto, inputs) -> RunResult``   one positional input set;
   ``run_reference_many / run_ort_many(proto, input_sets) -> list[RunResult]`` build the evaluator once
 * ``check(proto) -> None | str``   ``onnx.checker.check_model`` (default mode); the message if rejected
+* ``optional_inputs(proto)``, ``make_overrides(rng, proto, k)``, ``override_applicable(M, P(M), override)``:
+  initializer-backed graph inputs are inputs too - ``Case.override_sets`` / ``override_baseline`` hold extra
+  runs of M that feed them by name (``run_*_many(proto, input_sets, overrides=[{name: value}, ...])``)
 * ``same_outputs(a, b) -> None | str``   exact positional comparison (dtype, shape, values; NaN == NaN)
 * ``required_inputs(proto)``, ``to_proto(model)``, ``checker_class(message)``, ``FEATURES``, ``EVALUATORS``,
   ``RUNNERS`` (evaluator name -> ``run_*_many``)
@@ -119,10 +122,13 @@ FEATURES: dict[str, float] = {
     # cosmetics
     "metadata": 0.40,
     "missing_value_info": 0.30,
+    # added later - keep new entries at the end: choose_features draws in this order
+    "near_dup_const_rank": 0.20,  # Constants/initializers equal in dtype and bytes, differing in rank: (), (1,), (1,1)
+    "dup_init_is_input": 0.20,  # an initializer that is ALSO a graph input, listed before an identical plain initializer
 }
 _FN_FEATURES = ("fn", "fn_attr", "fn_default_used", "fn_nested", "fn_overload")
 DUPLICATE_FEATURES = frozenset(
-    {"cse_rename_shadow", "dup_expr", "near_dup_attr", "near_dup_outcount", "near_dup_default", "signed_zero", "dup_init",
+    {"cse_rename_shadow", "near_dup_const_rank", "dup_init_is_input", "dup_expr", "near_dup_attr", "near_dup_outcount", "near_dup_default", "signed_zero", "dup_init",
      "near_dup_init_dtype", "near_dup_init_shape"}
 )
 
@@ -147,9 +153,16 @@ class Case:
     info: dict
     inputs: list[list[np.ndarray]]
     baseline: dict[str, list[RunResult]]  # evaluator -> one RunResult per input set
+    # runs in which some initializer-backed ("optional") graph inputs are fed instead of defaulted:
+    # (index into ``inputs`` for the required values, {optional input name: value})
+    override_sets: list[tuple[int, dict[str, np.ndarray]]] = dataclasses.field(default_factory=list)
+    override_baseline: dict[str, list[RunResult]] = dataclasses.field(default_factory=dict)
 
     def ran(self, evaluator: str) -> list[int]:
         return [j for j, r in enumerate(self.baseline[evaluator]) if r.ok]
+
+    def ran_override(self, evaluator: str) -> list[int]:
+        return [j for j, r in enumerate(self.override_baseline.get(evaluator, [])) if r.ok]
 
 
 class _TV:
@@ -821,6 +834,43 @@ class _Builder:
             self.observe += self.emit(m, "Add", [x, w], None, [(w.dt, (2, 3))])
             self.init_inputs.append(w)
 
+    def plant_near_dup_const_rank(self, rng):
+        """One-element tensors with the same dtype and bytes but different rank, each followed by
+        rank-sensitive consumers (Shape; a broadcasting Add whose result shape depends on the rank)."""
+        dec = random.Random(rng.random())
+        m = self.main
+        dt = dec.choice([F32, F32, I64])
+        val = np.array(dec.choice([2, 3, -1, 5]), dtype=_NP[dt])
+        shapes = [(), (1,)] + ([(1, 1)] if dec.random() < 0.4 else [])
+        dec.shuffle(shapes)
+        as_init = dec.random() < 0.3
+        vec = self.need(m, rng, dt, (3,))
+        for shape in shapes:
+            arr = val.reshape(shape).copy()
+            c = self.add_init(m, rng, dt, shape, arr) if as_init else self.const(m, rng, dt, shape, arr, form="value")
+            self.observe += self.emit(m, "Shape", [c], None, [(I64, (len(shape),))], typed=True)
+            self.observe += self.emit(m, "Add", [vec, c], None, [(dt, _bshape((3,), shape))], typed=True)
+            if dec.random() < 0.3:
+                self.observe.append(c)
+
+    def plant_dup_init_is_input(self, rng):
+        """``w`` is an initializer and a graph input (a default the caller may override); ``v`` is a plain
+        initializer with the same dtype, shape and bytes.  Mostly ``w`` is listed first."""
+        dec = random.Random(rng.random())
+        m = self.main
+        dt, shape = dec.choice([(F32, (2, 3)), (F32, (3,)), (I64, (2, 3)), (F32, ())])
+        arr = self.rand_array(rng, dt, shape)
+        input_first = dec.random() < 0.75
+        x = self._x(rng, dt, (2, 3))
+        made = []
+        for is_input in ([True, False] if input_first else [False, True]):
+            w = self.add_init(m, rng, dt, shape, arr.copy())
+            if is_input:
+                self.init_inputs.append(w)
+            made.append(w)
+        for w, op in zip(made, dec.sample(["Add", "Mul", "Sub"], 2)):
+            self.observe += self.emit(m, op, [x, w], None, [(dt, (2, 3))])
+
     def plant_out_alias_input(self, rng):
         dec = random.Random(rng.random())  # variant decisions: independent of pool sizes
         ins = [t for t in self.main.inputs if t.dt != BOOL] or self.main.inputs
@@ -1159,7 +1209,7 @@ class _Builder:
         "identity_io_shadow", "identity_rename_shadow", "cse_rename_shadow", "identity_outer_branch", "identity_input_branch", "identity_in_branch", "captured_only", "const_in_branch",
         "subgraph_init", "sibling_init_name", "optional_io", "bn_training", "fn_alias", "fn_alias_branch",
         "fn_names_shadow", "fn_named_identity", "unused_node", "unused_fn", "unused_opset", "unused_init",
-        "out_alias_input", "out_init", "out_dup",
+        "near_dup_const_rank", "dup_init_is_input", "out_alias_input", "out_init", "out_dup",
     ]
 
     def build(self) -> tuple[ir.Model, dict]:
@@ -1298,6 +1348,54 @@ def required_inputs(model_proto: onnx.ModelProto) -> list[onnx.ValueInfoProto]:
     return [i for i in model_proto.graph.input if i.name not in inits]
 
 
+def optional_inputs(model_proto: onnx.ModelProto) -> list[tuple[onnx.ValueInfoProto, onnx.TensorProto]]:
+    """Graph inputs that ARE backed by an initializer (a default the caller may override), in order."""
+    inits = {t.name: t for t in model_proto.graph.initializer}
+    return [(i, inits[i.name]) for i in model_proto.graph.input if i.name in inits]
+
+
+def make_overrides(rng: random.Random, model, k: int = 2) -> list[dict[str, np.ndarray]]:
+    """Up to ``k`` override maps {optional input name: value of the initializer's dtype and shape,
+    different from the default}.  The first overrides every optional input, later ones a random
+    non-empty subset.  Empty list when the model has no initializer-backed graph input."""
+    proto = model if isinstance(model, onnx.ModelProto) else ir.to_proto(model)
+    optional = optional_inputs(proto)
+    if not optional:
+        return []
+    maps = []
+    for j in range(k):
+        chosen = optional if j == 0 else [o for o in optional if rng.random() < 0.5] or [rng.choice(optional)]
+        m = {}
+        for vi, tensor in chosen:
+            default = onnx.numpy_helper.to_array(tensor)
+            if default.dtype == np.bool_:
+                m[vi.name] = np.asarray(~default).reshape(default.shape)
+            elif default.dtype.kind == "f":
+                delta = np.array([rng.choice([1.0, -2.5, 8.0, 0.75]) for _ in range(default.size)], default.dtype)
+                m[vi.name] = np.asarray(default + delta.reshape(default.shape), dtype=default.dtype).reshape(default.shape)
+            else:
+                delta = np.array([rng.choice([1, -3, 7, 10]) for _ in range(default.size)], default.dtype)
+                m[vi.name] = np.asarray(default + delta.reshape(default.shape), dtype=default.dtype).reshape(default.shape)
+        maps.append(m)
+    return maps
+
+
+def override_applicable(original: onnx.ModelProto, transformed: onnx.ModelProto, override: dict[str, np.ndarray]) -> bool:
+    """An override may be replayed on a transformed model only if every overridden name is still an
+    initializer-backed graph input there with the *same default* (dtype, shape, bytes): otherwise the
+    same feed would not mean the same thing for both models (passes may legitimately add, remove or
+    rename optional inputs), and the set must not be used at all."""
+    before = {vi.name: t for vi, t in optional_inputs(original)}
+    after = {vi.name: t for vi, t in optional_inputs(transformed)}
+    for name in override:
+        if name not in before or name not in after:
+            return False
+        a, b = onnx.numpy_helper.to_array(before[name]), onnx.numpy_helper.to_array(after[name])
+        if a.dtype != b.dtype or a.shape != b.shape or a.tobytes() != b.tobytes():
+            return False
+    return True
+
+
 def _np_dtype_of(vi: onnx.ValueInfoProto):
     return onnx.helper.tensor_dtype_to_np_dtype(vi.type.tensor_type.elem_type)
 
@@ -1365,11 +1463,18 @@ def _casts_to_int(model_proto) -> bool:
     return False
 
 
-def _feeds(model_proto, inputs: Sequence[np.ndarray]):
+def _feeds(model_proto, inputs: Sequence[np.ndarray], override: dict[str, np.ndarray] | None = None):
     req = required_inputs(model_proto)
     if len(req) != len(inputs):
         return None, f"model has {len(req)} non-initializer inputs, {len(inputs)} values given"
-    return {vi.name: arr for vi, arr in zip(req, inputs)}, None
+    feeds = {vi.name: arr for vi, arr in zip(req, inputs)}
+    if override:
+        optional = {vi.name for vi, _ in optional_inputs(model_proto)}
+        missing = [n for n in override if n not in optional]
+        if missing:
+            return None, f"override of {missing}: not an initializer-backed graph input of this model"
+        feeds.update(override)
+    return feeds, None
 
 
 def _exc_class(e: BaseException) -> str:
@@ -1394,8 +1499,10 @@ def _reference_gate(model_proto) -> str | None:
     return None
 
 
-def run_reference_many(model_proto, input_sets: Sequence[Sequence[np.ndarray]]) -> list[RunResult]:
-    """``onnx.reference.ReferenceEvaluator`` on each positional input set (evaluator built once)."""
+def run_reference_many(model_proto, input_sets: Sequence[Sequence[np.ndarray]],
+                       overrides: Sequence[dict[str, np.ndarray] | None] | None = None) -> list[RunResult]:
+    """``onnx.reference.ReferenceEvaluator`` on each positional input set (evaluator built once).
+    ``overrides[j]`` (optional) feeds initializer-backed graph inputs by name in run j."""
     gate = _reference_gate(model_proto)
     if gate:
         return [RunResult(False, None, gate, "not attempted")] * len(input_sets)
@@ -1408,8 +1515,8 @@ def run_reference_many(model_proto, input_sets: Sequence[Sequence[np.ndarray]]) 
         except Exception as e:  # noqa: BLE001 - an evaluator that cannot load is a 'cannot run'
             return [RunResult(False, None, f"ref:load:{_exc_class(e)}", str(e)[:300])] * len(input_sets)
         results = []
-        for inputs in input_sets:
-            feeds, err = _feeds(model_proto, inputs)
+        for j, inputs in enumerate(input_sets):
+            feeds, err = _feeds(model_proto, inputs, overrides[j] if overrides else None)
             if feeds is None:
                 results.append(RunResult(False, None, "ref:feeds", err))
                 continue
@@ -1441,7 +1548,8 @@ def _ort_gate(model_proto) -> str | None:
     return None
 
 
-def run_ort_many(model_proto, input_sets: Sequence[Sequence[np.ndarray]]) -> list[RunResult]:
+def run_ort_many(model_proto, input_sets: Sequence[Sequence[np.ndarray]],
+                 overrides: Sequence[dict[str, np.ndarray] | None] | None = None) -> list[RunResult]:
     """onnxruntime (CPU, all graph optimisations disabled, 1 intra / 1 inter thread).  Every input
     set is run twice in the same session; different results make the run a 'cannot run'
     (``ort:nondeterministic``) because an evaluator that does not repeat itself cannot compare."""
@@ -1461,8 +1569,8 @@ def run_ort_many(model_proto, input_sets: Sequence[Sequence[np.ndarray]]) -> lis
     except Exception as e:  # noqa: BLE001
         return [RunResult(False, None, f"ort:load:{_exc_class(e)}", str(e)[:300])] * len(input_sets)
     results = []
-    for inputs in input_sets:
-        feeds, err = _feeds(model_proto, inputs)
+    for j, inputs in enumerate(input_sets):
+        feeds, err = _feeds(model_proto, inputs, overrides[j] if overrides else None)
         if feeds is None:
             results.append(RunResult(False, None, "ort:feeds", err))
             continue
@@ -1514,7 +1622,7 @@ def same_outputs(a: Sequence[np.ndarray], b: Sequence[np.ndarray]) -> str | None
 
 
 def admit(model: ir.Model, info: dict, inputs_rng: random.Random, k_inputs: int = 3,
-          evaluators: Sequence[str] = EVALUATORS) -> tuple[Case | None, str]:
+          evaluators: Sequence[str] = EVALUATORS, k_overrides: int = 2) -> tuple[Case | None, str]:
     """The gate every generated model goes through before use: serialisable, accepted by
     ``onnx.checker``, executed by >= 1 evaluator on >= 1 input set, and the evaluated outputs have
     the dtype/shape the generator expects.  Returns ``(case, "ok")`` or ``(None, reason)``."""
@@ -1542,7 +1650,15 @@ def admit(model: ir.Model, info: dict, inputs_rng: random.Random, k_inputs: int 
                 got = [(o.dtype.name, list(o.shape)) for o in r.outputs]
                 if [g[0] for g in got] != [w[0] for w in want] or (e == "ort" and got != want):
                     return None, "type_tracking"
-    return Case(model, proto, info, inputs, baseline), "ok"
+    case = Case(model, proto, info, inputs, baseline)
+    if k_overrides and inputs:
+        # "for all inputs" includes the initializer-backed graph inputs: extra runs that override them
+        maps = make_overrides(random.Random(f"{info.get('seed')}:overrides"), proto, k_overrides)
+        case.override_sets = [(j % len(inputs), m) for j, m in enumerate(maps)]
+        if case.override_sets:
+            sets = [inputs[j] for j, _ in case.override_sets]
+            case.override_baseline = {e: RUNNERS[e](proto, sets, [m for _, m in case.override_sets]) for e in evaluators}
+    return case, "ok"
 
 
 def gen_checked(rng: random.Random, size: int = 10, features: Iterable[str] | None = None, k_inputs: int = 3,
